@@ -255,6 +255,16 @@ def builtinOp (f : Nat) (a b : Int) : Option Val :=
   | Option.some .SaturatingSub => Option.some (.int (saturate (a - b)))
   | _ => Option.none
 
+/-- integer comparison; `none` unless both operands are integers -/
+def cmpInts (f : Int → Int → Bool) : Val → Val → Option Val
+  | .int i, .int j => Option.some (.bool (f i j))
+  | _, _ => Option.none
+
+/-- exactly two integer arguments -/
+def intPair : List Val → Option (Int × Int)
+  | [.int a, .int b] => Option.some (a, b)
+  | _ => Option.none
+
 def isBuiltin (f : Nat) : Bool := (builtinInstr f : Option (Instruction Unit Unit Unit Unit)).isSome
 
 /-- bind parameters last-to-first (the callee's prologue) -/
@@ -322,11 +332,11 @@ def evalExpr (p : Program) : Nat → Env → Log → Expr → Res Val
     | .call f args => match evalArgs p n env log args with
       | .val vs l =>
         if isBuiltin f then
-          match vs with
-          | [.int a, .int b] => match builtinOp f a b with
+          match intPair vs with
+          | Option.some (a, b) => match builtinOp f a b with
             | Option.some v => .val v l
             | Option.none => .stuck
-          | _ => .stuck
+          | Option.none => .stuck
         else evalCall p n f vs l
       | .ret v l => .ret v l
       | .exit r l => .exit r l
@@ -391,30 +401,30 @@ def evalExpr (p : Program) : Nat → Env → Log → Expr → Res Val
       | r => r
     | .gt a b => match evalExpr p n env log a with
       | .val x l => match evalExpr p n env l b with
-        | .val y l' => match x, y with
-          | .int i, .int j => .val (.bool (decide (i > j))) l'
-          | _, _ => .stuck
+        | .val y l' => match cmpInts (fun i j => decide (i > j)) x y with
+          | Option.some v => .val v l'
+          | Option.none => .stuck
         | r => r
       | r => r
     | .lt a b => match evalExpr p n env log a with
       | .val x l => match evalExpr p n env l b with
-        | .val y l' => match x, y with
-          | .int i, .int j => .val (.bool (decide (i < j))) l'
-          | _, _ => .stuck
+        | .val y l' => match cmpInts (fun i j => decide (i < j)) x y with
+          | Option.some v => .val v l'
+          | Option.none => .stuck
         | r => r
       | r => r
     | .ge a b => match evalExpr p n env log a with
       | .val x l => match evalExpr p n env l b with
-        | .val y l' => match x, y with
-          | .int i, .int j => .val (.bool (decide (i ≥ j))) l'
-          | _, _ => .stuck
+        | .val y l' => match cmpInts (fun i j => decide (i ≥ j)) x y with
+          | Option.some v => .val v l'
+          | Option.none => .stuck
         | r => r
       | r => r
     | .le a b => match evalExpr p n env log a with
       | .val x l => match evalExpr p n env l b with
-        | .val y l' => match x, y with
-          | .int i, .int j => .val (.bool (decide (i ≤ j))) l'
-          | _, _ => .stuck
+        | .val y l' => match cmpInts (fun i j => decide (i ≤ j)) x y with
+          | Option.some v => .val v l'
+          | Option.none => .stuck
         | r => r
       | r => r
     | .not e => match evalExpr p n env log e with
